@@ -8,7 +8,8 @@ stochastic object, mixture and molecule does not depend on any weight, transitio
 a function of the erased structure only), and contains the same tokens / descriptors / terminals in the same order.
 At the level of **characters**, for bond descriptors (`GBS/Lemmas/RoundTrip.lean`): `C01_desc_plain_roundtrip` (the text printed
 without extensions parses back to the same symbol, id and bond order, weight 1, no list), `C01_desc_weight_roundtrip` (`[sym id |w|]`
-parses back to the same descriptor, for every weight whose printed form reads back — `NumTextOK`, decidable) and
+parses back to the same descriptor, for every weight whose printed form reads back — `NumTextOK`, decidable),
+`C01_desc_list_roundtrip` (`[sym id |w1 … wn|]`, n ≥ 2, weight = sum) and
 `C01_desc_empty_roundtrip` (`[]`).  The fixed-point and same-object halves for tokens, objects and molecules (`str ∘ parse` on
 characters) are tied to the code by the correspondence check and decided on the implementation by the round-trip oracle
 (fallback announced in DESIGN.md 7/C01); the binding and weight laws they rest on are `C02_binding_simulation` and
@@ -84,6 +85,14 @@ theorem C01_desc_weight_roundtrip (p : PDesc) (hs : p.d.sym ≠ .none) (hst : st
             pre := p.pre, num := p.num, noAtom := atom.isNone } :=
   desc_weight_roundtrip p hs hst atom htr hw1 hnum
 
+/-- **C01 (descriptor with a transition list, characters)**: `[sym id |w1 … wn|]`, n ≥ 2, weight = sum of the list -/
+theorem C01_desc_list_roundtrip (p : PDesc) (hs : p.d.sym ≠ .none) (hst : stereoRejected p.pre = false) (atom : Option Nat)
+    (l : List Rat) (htr : p.d.trans = some l) (hlen : 2 ≤ l.length) (hsum : p.d.weight = sumQ l) (hnum : NumsTextOK l) :
+    parseDesc (printDesc p true) p.num p.pre atom =
+      .ok { d := { sym := p.d.sym, id := p.d.id, order := orderOfPrefix p.pre, weight := p.d.weight, trans := some l, atom := atom.getD 0 },
+            pre := p.pre, num := p.num, noAtom := atom.isNone } :=
+  desc_list_roundtrip p hs hst atom l htr hlen hsum hnum
+
 /-- **C01 (empty terminal, characters)** -/
 theorem C01_desc_empty_roundtrip (p : PDesc) (hs : p.d.sym = .none) (hid : p.d.id = none) (ext : Bool)
     (hw : p.d.trans = none ∧ p.d.weight = 1) (num : Nat) (pre : Str) (atom : Option Nat) :
@@ -94,6 +103,11 @@ theorem C01_desc_empty_roundtrip (p : PDesc) (hs : p.d.sym = .none) (hid : p.d.i
 /-- non-vacuity of `NumTextOK`: the printed forms of 2.5, 0 and 12.75 read back and contain neither `|` nor white space -/
 example : NumTextOK (5 / 2) ∧ NumTextOK 0 ∧ NumTextOK (51 / 4) := by
   refine ⟨⟨?_, ?_, ?_⟩, ⟨?_, ?_, ?_⟩, ⟨?_, ?_, ?_⟩⟩ <;> decide +kernel
+
+/-- `[>|0 2.5 0 12.75|]` -/
+example : parseDesc (printDesc { d := { sym := .gt, id := none, order := .single, weight := 61 / 4, trans := some [0, 5 / 2, 0, 51 / 4] }, pre := [], num := 1 } true) 1 [] (some 0) =
+    .ok { d := { sym := .gt, id := none, order := .single, weight := 61 / 4, trans := some [0, 5 / 2, 0, 51 / 4], atom := 0 }, pre := [], num := 1 } := by
+  decide +kernel
 
 /-- `[<12|2.5|]` -/
 example : parseDesc (printDesc { d := { sym := .lt, id := some 12, order := .single, weight := 5 / 2 }, pre := [], num := 3 } true) 3 [] (some 4) =
